@@ -30,6 +30,9 @@ constexpr int64_t INF_NS  = INT64_MAX / 4;
 
 // hash mode: 0 identity, 1 all keys collide in one bucket
 extern int g_hash_mode;
+// value equality mode: 0 = two values are == iff they come from the same write (unique write ids);
+// 1 = every value ever written under the same key is == ("updated with an equal value" histories)
+extern int g_val_eq_mode;
 
 struct Key
 {
@@ -55,11 +58,12 @@ struct Val
     static constexpr uint32_t ALIVE = 0xA11CE5u;
     static constexpr uint32_t DEAD  = 0xDEADDEADu;
     int*     p{nullptr};
+    int      pl{-1}; // payload: the key the harness wrote this value under
     uint32_t canary{ALIVE};
 
     Val() { ++g_vs.live; }
-    explicit Val(int wid) : p(new int(wid)) { ++g_vs.live; }
-    Val(const Val& o) : p(nullptr)
+    Val(int wid, int key) : p(new int(wid)), pl(key) { ++g_vs.live; }
+    Val(const Val& o) : p(nullptr), pl(o.pl)
     {
         if (o.canary != ALIVE)
             ++g_vs.bad_use;
@@ -67,7 +71,7 @@ struct Val
             p = new int(*o.p);
         ++g_vs.live;
     }
-    Val(Val&& o) noexcept : p(o.p)
+    Val(Val&& o) noexcept : p(o.p), pl(o.pl)
     {
         if (o.canary != ALIVE)
             ++g_vs.bad_use;
@@ -82,7 +86,8 @@ struct Val
         {
             int* np = o.p ? new int(*o.p) : nullptr;
             delete p;
-            p = np;
+            p  = np;
+            pl = o.pl;
         }
         return *this;
     }
@@ -94,6 +99,7 @@ struct Val
         {
             delete p;
             p   = o.p;
+            pl  = o.pl;
             o.p = nullptr;
         }
         return *this;
@@ -113,6 +119,11 @@ struct Val
             ++g_vs.bad_use;
         return p ? *p : -1;
     }
+    // what the oracle reads from a returned value: the write id, or in equal-values mode the payload
+    int id() const { return g_val_eq_mode ? (p ? pl : -1) : wid(); }
+    // Users may compare values (see g_val_eq_mode).
+    bool operator==(const Val& o) const { return g_val_eq_mode ? pl == o.pl : wid() == o.wid(); }
+    bool operator!=(const Val& o) const { return !(*this == o); }
 };
 
 // ---------------------------------------------------------------------------------------------
@@ -386,6 +397,7 @@ struct Config
     int   ttl_ms{2};  // initial uniform ttl (utlru, ut_map, ut_set)
     int   tick_ms{2}; // lfuda tick
     float ratio{0.5f};
+    int   valeq{0}; // value equality mode (g_val_eq_mode)
 };
 
 // 128-bit state hash (FNV-1a variant x2) -- used for the seen set.
